@@ -38,17 +38,17 @@ theorem tryToReorder_off_doc {α} (f : M α) (ops : List Int) (Pre : Tbl → Pro
 
 /-! ### the documented result of each core operation, both modes -/
 
-theorem ite_doc : ∀ (off : Bool) (a : AMgr), AInv off a → ∀ (g u v : Int) (jg ju jv : Nat),
+theorem ite_doc : ∀ (off : Bool) (a : AMgr), AInv off a → Two off a → ∀ (g u v : Int) (jg ju jv : Nat),
     a.handles[jg]? = some g → a.handles[ju]? = some u → a.handles[jv]? = some v →
     ∃ r m', ite g u v a.m = (.ok r, m') ∧ IteDoc g u v a.m.tbl r m'.tbl
-  | false => fun a hi g u v jg ju jv hg hu hv => by
-    obtain ⟨r, m', he, hp⟩ := C09_ite_transparent (hext a) a.m hi.minv.dynInv g u v
+  | false => fun a hi ht g u v jg ju jv hg hu hv => by
+    obtain ⟨r, m', he, hp⟩ := C09_ite_transparent (hext a) a.m (hi.minv.dynInv (ht rfl)) g u v
       (heldX_of_handle a hg) (heldX_of_handle a hu) (heldX_of_handle a hv)
     exact ⟨r, m', he, hp.doc⟩
-  | true => fun a hi g u v jg ju jv hg hu hv => by
+  | true => fun a hi _ g u v jg ju jv hg hu hv => by
     unfold ite
     refine tryToReorder_off_doc (iteRaw g u v) [g, u, v] (fun _ => True) (IteDoc g u v) ?_
-      a.m hi.inv hi.order (hi.mode.1 rfl) ?_ trivial
+      a.m hi.inv hi.order (hi.mode rfl) ?_ trivial
     · intro m0 hI0 _ _ _ hmem
       have mg := hmem g (by simp)
       have mu := hmem u (by simp)
@@ -67,16 +67,16 @@ theorem ite_doc : ∀ (off : Bool) (a : AMgr), AInv off a → ∀ (g u v : Int) 
       · exact hi.hmem ju _ hu
       · exact hi.hmem jv _ hv
 
-theorem var_doc : ∀ (off : Bool) (a : AMgr), AInv off a → ∀ (name : String),
+theorem var_doc : ∀ (off : Bool) (a : AMgr), AInv off a → Two off a → ∀ (name : String),
     a.m.tbl.vars.contains name = true →
     ∃ r m', var name a.m = (.ok r, m') ∧ VarDoc name a.m.tbl r m'.tbl
-  | false => fun a hi name hd => by
-    obtain ⟨r, m', he, hp⟩ := C09_var_transparent (hext a) a.m hi.minv.dynInv name hd
+  | false => fun a hi ht name hd => by
+    obtain ⟨r, m', he, hp⟩ := C09_var_transparent (hext a) a.m (hi.minv.dynInv (ht rfl)) name hd
     exact ⟨r, m', he, hp.doc⟩
-  | true => fun a hi name hdecl => by
+  | true => fun a hi _ name hdecl => by
     rw [var_eq_dynVarBody]
     refine tryToReorder_off_doc (dynVarBody name) [] (fun t => t.vars.contains name = true)
-      (VarDoc name) ?_ a.m hi.inv hi.order (hi.mode.1 rfl) (fun _ h => by cases h) hdecl
+      (VarDoc name) ?_ a.m hi.inv hi.order (hi.mode rfl) (fun _ h => by cases h) hdecl
     intro m0 hI0 _ hO hpre _
     obtain ⟨j, hj⟩ := (vars_contains_iff m0.tbl name).mp hpre
     have hb : dynVarBody name m0 = findOrAdd (j : Int) (-1) 1 m0 := by
@@ -93,60 +93,60 @@ theorem var_doc : ∀ (off : Bool) (a : AMgr), AInv off a → ∀ (name : String
       unfold Tbl.nameOf; rw [hl]; exact hO.nameOf_level hj
     rw [this]
 
-theorem quantify_doc : ∀ (off : Bool) (a : AMgr), AInv off a → ∀ (u : Int) (ju : Nat),
+theorem quantify_doc : ∀ (off : Bool) (a : AMgr), AInv off a → Two off a → ∀ (u : Int) (ju : Nat),
     a.handles[ju]? = some u → ∀ (fa : Bool) (names : List String),
     (∀ s ∈ names, a.m.tbl.vars.contains s = true) →
     ∃ r m', quantify u (names.map Key.name) fa a.m = (.ok r, m') ∧
       QuantDoc fa names u a.m.tbl r m'.tbl
-  | false => fun a hi u ju hu fa names hd => by
-    obtain ⟨r, m', he, hp⟩ := C09_quantify_transparent (hext a) a.m hi.minv.dynInv u
+  | false => fun a hi ht u ju hu fa names hd => by
+    obtain ⟨r, m', he, hp⟩ := C09_quantify_transparent (hext a) a.m (hi.minv.dynInv (ht rfl)) u
       (heldX_of_handle a hu) fa names hd
     exact ⟨r, m', he, hp.doc⟩
-  | true => fun a hi u ju hu fa names hdecl => by
+  | true => fun a hi _ u ju hu fa names hdecl => by
     unfold quantify
     refine tryToReorder_off_doc (quantifyBody u (names.map Key.name) fa) [u]
       (fun t => ∀ s ∈ names, t.vars.contains s = true) (QuantDoc fa names u) ?_
-      a.m hi.inv hi.order (hi.mode.1 rfl) ?_ hdecl
+      a.m hi.inv hi.order (hi.mode rfl) ?_ hdecl
     · intro m0 hI0 hc hO hpre hmem
       exact quantifyBody_out m0 hI0 (Or.inl hc) hO u (hmem u (by simp)) fa names hpre
     · intro w hw
       simp only [List.mem_cons, List.not_mem_nil, or_false] at hw
       subst hw; exact hi.hmem ju _ hu
 
-theorem cofactor_doc : ∀ (off : Bool) (a : AMgr), AInv off a → ∀ (u : Int) (ju : Nat),
+theorem cofactor_doc : ∀ (off : Bool) (a : AMgr), AInv off a → Two off a → ∀ (u : Int) (ju : Nat),
     a.handles[ju]? = some u → ∀ (vals : List (String × Bool)),
     (∀ p ∈ vals, a.m.tbl.vars.contains p.1 = true) →
     ∃ r m', cofactor u (boolKeys vals) a.m = (.ok r, m') ∧ CofDoc vals u a.m.tbl r m'.tbl
-  | false => fun a hi u ju hu vals hd => by
-    obtain ⟨r, m', he, hp⟩ := C09_cofactor_transparent (hext a) a.m hi.minv.dynInv u
+  | false => fun a hi ht u ju hu vals hd => by
+    obtain ⟨r, m', he, hp⟩ := C09_cofactor_transparent (hext a) a.m (hi.minv.dynInv (ht rfl)) u
       (heldX_of_handle a hu) vals hd
     exact ⟨r, m', he, hp.doc⟩
-  | true => fun a hi u ju hu vals hdecl => by
+  | true => fun a hi _ u ju hu vals hdecl => by
     unfold cofactor
     refine tryToReorder_off_doc (cofactorBody u (boolKeys vals)) [u]
       (fun t => ∀ p ∈ vals, t.vars.contains p.1 = true) (CofDoc vals u) ?_
-      a.m hi.inv hi.order (hi.mode.1 rfl) ?_ hdecl
+      a.m hi.inv hi.order (hi.mode rfl) ?_ hdecl
     · intro m0 hI0 _ hO hpre hmem
       exact cofactorBody_out m0 hI0 hO u (hmem u (by simp)) vals hpre
     · intro w hw
       simp only [List.mem_cons, List.not_mem_nil, or_false] at hw
       subst hw; exact hi.hmem ju _ hu
 
-theorem compose_doc : ∀ (off : Bool) (a : AMgr), AInv off a → ∀ (f : Int) (jf : Nat),
+theorem compose_doc : ∀ (off : Bool) (a : AMgr), AInv off a → Two off a → ∀ (f : Int) (jf : Nat),
     a.handles[jf]? = some f → ∀ (varSub : List (String × Int)),
     (∀ p ∈ varSub, a.m.tbl.vars.contains p.1 = true) →
     (∀ p ∈ varSub, ∃ j : Nat, a.handles[j]? = some p.2) →
     ∃ r m', compose f varSub a.m = (.ok r, m') ∧ ComposeDoc varSub f a.m.tbl r m'.tbl
-  | false => fun a hi f jf hf varSub hd hh => by
-    obtain ⟨r, m', he, hp⟩ := C09_compose_transparent (hext a) a.m hi.minv.dynInv f
+  | false => fun a hi ht f jf hf varSub hd hh => by
+    obtain ⟨r, m', he, hp⟩ := C09_compose_transparent (hext a) a.m (hi.minv.dynInv (ht rfl)) f
       (heldX_of_handle a hf) varSub hd
       (fun p hp => by obtain ⟨j, hj⟩ := hh p hp; exact heldX_of_handle a hj)
     exact ⟨r, m', he, hp.doc⟩
-  | true => fun a hi f jf hf varSub hdecl hh => by
+  | true => fun a hi _ f jf hf varSub hdecl hh => by
     unfold compose
     refine tryToReorder_off_doc (composeBody f varSub) (f :: varSub.map (·.2))
       (fun t => ∀ p ∈ varSub, t.vars.contains p.1 = true) (ComposeDoc varSub f) ?_
-      a.m hi.inv hi.order (hi.mode.1 rfl) ?_ hdecl
+      a.m hi.inv hi.order (hi.mode rfl) ?_ hdecl
     · intro m0 hI0 hc hO hpre hmem
       exact composeBody_out m0 hI0 (Or.inl hc) hO f (hmem f List.mem_cons_self) varSub hpre
         (fun p hp => hmem p.2 (List.mem_cons_of_mem _ (List.mem_map.mpr ⟨p, hp, rfl⟩)))
@@ -157,49 +157,49 @@ theorem compose_doc : ∀ (off : Bool) (a : AMgr), AInv off a → ∀ (f : Int) 
         obtain ⟨j, hj⟩ := hh p hp
         exact hi.hmem j _ hj
 
-theorem rename_doc : ∀ (off : Bool) (a : AMgr), AInv off a → ∀ (u : Int) (ju : Nat),
+theorem rename_doc : ∀ (off : Bool) (a : AMgr), AInv off a → Two off a → ∀ (u : Int) (ju : Nat),
     a.handles[ju]? = some u → ∀ (dvars : List (String × String)),
     (∀ p ∈ dvars, a.m.tbl.vars.contains p.2 = true) →
     ∃ r m', rename u dvars a.m = (.ok r, m') ∧ RenameDoc dvars u a.m.tbl r m'.tbl
-  | false => fun a hi u ju hu dvars hd => by
-    obtain ⟨r, m', he, hp⟩ := C09_rename_transparent (hext a) a.m hi.minv.dynInv u
+  | false => fun a hi ht u ju hu dvars hd => by
+    obtain ⟨r, m', he, hp⟩ := C09_rename_transparent (hext a) a.m (hi.minv.dynInv (ht rfl)) u
       (heldX_of_handle a hu) dvars hd
     exact ⟨r, m', he, hp.doc⟩
-  | true => fun a hi u ju hu dvars hd => by
+  | true => fun a hi _ u ju hu dvars hd => by
     unfold rename
     refine tryToReorder_off_doc (renameBody u dvars) [u]
       (fun t => ∀ p ∈ dvars, t.vars.contains p.2 = true) (RenameDoc dvars u) ?_
-      a.m hi.inv hi.order (hi.mode.1 rfl) ?_ hd
+      a.m hi.inv hi.order (hi.mode rfl) ?_ hd
     · intro m0 hI0 hc hO hpre hmem
       exact renameBody_out m0 hI0 (Or.inl hc) hO u (hmem u (by simp)) dvars hpre
     · intro w hw
       simp only [List.mem_cons, List.not_mem_nil, or_false] at hw
       subst hw; exact hi.hmem ju _ hu
 
-theorem cube_doc : ∀ (off : Bool) (a : AMgr), AInv off a → ∀ (dvars : List (String × Bool)),
+theorem cube_doc : ∀ (off : Bool) (a : AMgr), AInv off a → Two off a → ∀ (dvars : List (String × Bool)),
     (∀ p ∈ dvars, a.m.tbl.vars.contains p.1 = true) →
     ∃ r m', cube dvars a.m = (.ok r, m') ∧ CubeDoc dvars a.m.tbl r m'.tbl
-  | false => fun a hi dvars hd => by
-    obtain ⟨r, m', he, hp⟩ := C09_cube_transparent (hext a) a.m hi.minv.dynInv dvars hd
+  | false => fun a hi ht dvars hd => by
+    obtain ⟨r, m', he, hp⟩ := C09_cube_transparent (hext a) a.m (hi.minv.dynInv (ht rfl)) dvars hd
     exact ⟨r, m', he, hp.doc⟩
-  | true => fun a hi dvars hdecl => by
+  | true => fun a hi _ dvars hdecl => by
     rw [cube_eq]
     refine tryToReorder_off_doc (cubeBody dvars) []
       (fun t => ∀ p ∈ dvars, t.vars.contains p.1 = true) (CubeDoc dvars) ?_
-      a.m hi.inv hi.order (hi.mode.1 rfl) (fun _ h => by cases h) hdecl
+      a.m hi.inv hi.order (hi.mode rfl) (fun _ h => by cases h) hdecl
     intro m0 hI0 hc hO hpre _
     exact cubeBody_out m0 hI0 hc hO dvars hpre
 
-theorem apply_ite_doc : ∀ (off : Bool) (a : AMgr), AInv off a → ∀ (op : String),
+theorem apply_ite_doc : ∀ (off : Bool) (a : AMgr), AInv off a → Two off a → ∀ (op : String),
     docConn op = some .ite → Gen.allOps.contains op = true → ∀ (u v w : Int) (ju jv jw : Nat),
     a.handles[ju]? = some u → a.handles[jv]? = some v → a.handles[jw]? = some w →
     ∃ r m', apply op u (some v) (some w) a.m = (.ok r, m') ∧ Ite3Doc u v w a.m.tbl r m'.tbl
-  | false => fun a hi op hc hall u v w ju jv jw hu hv hw => by
-    obtain ⟨r, m', he, hp⟩ := C09_apply_ite_transparent (hext a) a.m hi.minv.dynInv op hc hall
+  | false => fun a hi ht op hc hall u v w ju jv jw hu hv hw => by
+    obtain ⟨r, m', he, hp⟩ := C09_apply_ite_transparent (hext a) a.m (hi.minv.dynInv (ht rfl)) op hc hall
       u v w (heldX_of_handle a hu) (heldX_of_handle a hv) (heldX_of_handle a hw)
     exact ⟨r, m', he, hp.doc⟩
-  | true => fun a hi op hc hall u v w ju jv jw hu hv hw => by
-    obtain ⟨r, m', he, _, _, hr, hfr, hd⟩ := apply_ite_spec a.m hi.inv (hi.mode.1 rfl) op hc hall
+  | true => fun a hi _ op hc hall u v w ju jv jw hu hv hw => by
+    obtain ⟨r, m', he, _, _, hr, hfr, hd⟩ := apply_ite_spec a.m hi.inv (hi.mode rfl) op hc hall
       u v w (hi.hmem ju u hu) (hi.hmem jv v hv) (hi.hmem jw w hw)
     refine ⟨r, m', he, hr, fun σ => ?_⟩
     have hl : m'.tbl.lift σ = a.m.tbl.lift σ := by
@@ -241,7 +241,7 @@ theorem apply_quant_eq (m : Mgr) (op : String) (c : Conn) (hc : docConn op = som
 /-- `apply(op, u, v)` with `op` one of `\A`, `\E`, `forall`, `exists`: there is a list `names`
 (the answer of `support(u)`, all declared) such that the result is the quantification of `v`
 over `names` -/
-theorem apply_quant_doc (off : Bool) (a : AMgr) (hi : AInv off a) (op : String) (c : Conn)
+theorem apply_quant_doc (off : Bool) (a : AMgr) (hi : AInv off a) (ht : Two off a) (op : String) (c : Conn)
     (hc : docConn op = some c) (hq : c = .forall_ ∨ c = .exists_)
     (hall : Gen.allOps.contains op = true) (u v : Int) (ju jv : Nat)
     (hu : a.handles[ju]? = some u) (hv : a.handles[jv]? = some v) :
@@ -253,21 +253,21 @@ theorem apply_quant_doc (off : Bool) (a : AMgr) (hi : AInv off a) (op : String) 
   obtain ⟨names, hsupp, hdecl⟩ := support_declared a.m hi.inv hi.order u mu
   refine ⟨names, hsupp, hdecl, ?_⟩
   rw [apply_quant_eq a.m op c hc hq hall u v mu mv names hsupp]
-  exact quantify_doc off a hi v jv hv _ names hdecl
+  exact quantify_doc off a hi ht v jv hv _ names hdecl
 
-theorem addExpr_doc : ∀ (off : Bool) (a : AMgr), AInv off a → ∀ (s : String) (t : Ast),
+theorem addExpr_doc : ∀ (off : Bool) (a : AMgr), AInv off a → Two off a → ∀ (s : String) (t : Ast),
     parse (tokenize s) = some t → Meaningful a.m.tbl t →
     (∀ u ∈ t.atNodes, ∃ j : Nat, a.handles[j]? = some u) →
     ∃ r m', addExpr s a.m = (.ok r, m') ∧ ExprDoc t a.m.tbl r m'.tbl
-  | false => fun a hi s t hp hM hh => by
-    obtain ⟨r, m', he, hpost⟩ := C09_addExpr_transparent (hext a) a.m hi.minv.dynInv s t hp hM
+  | false => fun a hi ht s t hp hM hh => by
+    obtain ⟨r, m', he, hpost⟩ := C09_addExpr_transparent (hext a) a.m (hi.minv.dynInv (ht rfl)) s t hp hM
       (fun u hu => by obtain ⟨j, hj⟩ := hh u hu; exact heldX_of_handle a hj)
     exact ⟨r, m', he, hpost.doc⟩
-  | true => fun a hi s t hp hM _ => by
+  | true => fun a hi _ s t hp hM _ => by
     unfold addExpr
     rw [addExprToks_of_parse hp]
     refine tryToReorder_off_doc (evalAst t) [] (fun T => Meaningful T t) (ExprDoc t) ?_
-      a.m hi.inv hi.order (hi.mode.1 rfl) (fun _ h => by cases h) hM
+      a.m hi.inv hi.order (hi.mode rfl) (fun _ h => by cases h) hM
     intro m0 hI0 hc hO hpre _
     exact evalAst_out t m0 hI0 hc hO hpre
 
@@ -353,18 +353,18 @@ theorem optNodeIn_eval {a : AMgr} (hi : AInv off a) {h : Nat} {u : Int}
 
 /-! ### the methods -/
 
-theorem aVar_value (a : AMgr) (hi : AInv off a) (name : String) (h : Nat)
+theorem aVar_value (a : AMgr) (hi : AInv off a) (ht : Two off a) (name : String) (h : Nat)
     (hf : a.handles.contains h = false) (hd : a.m.tbl.vars.contains name = true) :
     AValue off a h (aVar name h) (VarDoc name) :=
   wrapResult_value a hi h hf (var name) (VarDoc name) ((var_keepsAll off name).at a.m)
-    (fun _ _ _ d => d.1) (var_doc off a hi name hd)
+    (fun _ _ _ d => d.1) (var_doc off a hi ht name hd)
 
-theorem aIte_value (a : AMgr) (hi : AInv off a) (jg ju jv h : Nat)
+theorem aIte_value (a : AMgr) (hi : AInv off a) (ht : Two off a) (jg ju jv h : Nat)
     (hf : a.handles.contains h = false) (g u v : Int)
     (hg : a.handles[jg]? = some g) (hu : a.handles[ju]? = some u) (hv : a.handles[jv]? = some v) :
     AValue off a h (aIte jg ju jv h) (IteDoc g u v) := by
   refine AValue.of_eq ?_ (wrapResult_value a hi h hf (ite g u v) (IteDoc g u v)
-    ((ite_keepsAll off g u v).at a.m) (fun _ _ _ d => d.1) (ite_doc off a hi g u v jg ju jv hg hu hv))
+    ((ite_keepsAll off g u v).at a.m) (fun _ _ _ d => d.1) (ite_doc off a hi ht g u v jg ju jv hg hu hv))
   unfold aIte
   rw [AM.bind_ok (nodeIn_eval hi hg), AM.bind_ok (nodeIn_eval hi hu), AM.bind_ok (nodeIn_eval hi hv)]
 
@@ -385,7 +385,7 @@ theorem aApply_eval3 (a : AMgr) (hi : AInv off a) (op : String) (ju jv jw h : Na
     AM.bind_ok (show AM.check (!((some jv).isNone && (some jw).isSome)) .value a = (.ok (), a) from rfl),
     AM.bind_ok (optNodeIn_eval hi hv), AM.bind_ok (optNodeIn_eval hi hw)]
 
-theorem aApply_binary_value (a : AMgr) (hi : AInv off a) (op : String) (c : Conn)
+theorem aApply_binary_value (a : AMgr) (hi : AInv off a) (ht : Two off a) (op : String) (c : Conn)
     (hc : docConn op = some c) (h2 : c.arity = 2) (hq1 : c ≠ .forall_) (hq2 : c ≠ .exists_)
     (hall : Gen.allOps.contains op = true) (ju jv h : Nat) (hf : a.handles.contains h = false)
     (u v : Int) (hu : a.handles[ju]? = some u) (hv : a.handles[jv]? = some v) :
@@ -393,10 +393,10 @@ theorem aApply_binary_value (a : AMgr) (hi : AInv off a) (op : String) (c : Conn
   refine AValue.of_eq (aApply_eval2 a hi op ju jv h u v hu hv)
     (wrapResult_value a hi h hf _ (ConnDoc c u v) ((apply_keepsAll off op u (some v) none).at a.m)
       (fun _ _ _ d => d.1) ?_)
-  obtain ⟨_, r, m', he, hr, hd⟩ := applyBin_ok off a hi op c hc h2 hq1 hq2 hall ju jv u v hu hv
+  obtain ⟨_, r, m', he, hr, hd⟩ := applyBin_ok off a hi ht op c hc h2 hq1 hq2 hall ju jv u v hu hv
   exact ⟨r, m', he, hr, hd⟩
 
-theorem aApply_ite_value (a : AMgr) (hi : AInv off a) (op : String)
+theorem aApply_ite_value (a : AMgr) (hi : AInv off a) (ht : Two off a) (op : String)
     (hc : docConn op = some .ite) (hall : Gen.allOps.contains op = true) (ju jv jw h : Nat)
     (hf : a.handles.contains h = false) (u v w : Int) (hu : a.handles[ju]? = some u)
     (hv : a.handles[jv]? = some v) (hw : a.handles[jw]? = some w) :
@@ -404,41 +404,41 @@ theorem aApply_ite_value (a : AMgr) (hi : AInv off a) (op : String)
   AValue.of_eq (aApply_eval3 a hi op ju jv jw h u v w hu hv hw)
     (wrapResult_value a hi h hf _ (Ite3Doc u v w)
       ((apply_keepsAll off op u (some v) (some w)).at a.m) (fun _ _ _ d => d.1)
-      (apply_ite_doc off a hi op hc hall u v w ju jv jw hu hv hw))
+      (apply_ite_doc off a hi ht op hc hall u v w ju jv jw hu hv hw))
 
-theorem aApply_quant_value (a : AMgr) (hi : AInv off a) (op : String) (c : Conn)
+theorem aApply_quant_value (a : AMgr) (hi : AInv off a) (ht : Two off a) (op : String) (c : Conn)
     (hc : docConn op = some c) (hq : c = .forall_ ∨ c = .exists_)
     (hall : Gen.allOps.contains op = true) (ju jv h : Nat) (hf : a.handles.contains h = false)
     (u v : Int) (hu : a.handles[ju]? = some u) (hv : a.handles[jv]? = some v) :
     ∃ names, support a.m.tbl u = .ok names ∧
       AValue off a h (aApply op ju (some jv) none h) (QuantDoc (decide (c = .forall_)) names v) := by
-  obtain ⟨names, hs, _, hd⟩ := apply_quant_doc off a hi op c hc hq hall u v ju jv hu hv
+  obtain ⟨names, hs, _, hd⟩ := apply_quant_doc off a hi ht op c hc hq hall u v ju jv hu hv
   exact ⟨names, hs, AValue.of_eq (aApply_eval2 a hi op ju jv h u v hu hv)
     (wrapResult_value a hi h hf _ _ ((apply_keepsAll off op u (some v) none).at a.m)
       (fun _ _ _ d => d.1) hd)⟩
 
-theorem aQuantify_value (a : AMgr) (hi : AInv off a) (ju h : Nat)
+theorem aQuantify_value (a : AMgr) (hi : AInv off a) (ht : Two off a) (ju h : Nat)
     (hf : a.handles.contains h = false) (u : Int) (hu : a.handles[ju]? = some u) (fa : Bool)
     (names : List String) (hd : ∀ s ∈ names, a.m.tbl.vars.contains s = true) :
     AValue off a h (aQuantify ju (names.map Key.name) fa h) (QuantDoc fa names u) := by
   refine AValue.of_eq ?_ (wrapResult_value a hi h hf _ (QuantDoc fa names u)
     ((quantify_keepsAll off u _ fa).at a.m) (fun _ _ _ d => d.1)
-    (quantify_doc off a hi u ju hu fa names hd))
+    (quantify_doc off a hi ht u ju hu fa names hd))
   unfold aQuantify
   rw [AM.bind_ok (nodeIn_eval hi hu)]
 
-theorem aCube_value (a : AMgr) (hi : AInv off a) (dvars : List (String × Bool)) (h : Nat)
+theorem aCube_value (a : AMgr) (hi : AInv off a) (ht : Two off a) (dvars : List (String × Bool)) (h : Nat)
     (hf : a.handles.contains h = false) (hd : ∀ p ∈ dvars, a.m.tbl.vars.contains p.1 = true) :
     AValue off a h (aCube dvars h) (CubeDoc dvars) :=
   wrapResult_value a hi h hf (cube dvars) (CubeDoc dvars) ((cube_keepsAll off dvars).at a.m)
-    (fun _ _ _ d => d.1) (cube_doc off a hi dvars hd)
+    (fun _ _ _ d => d.1) (cube_doc off a hi ht dvars hd)
 
-theorem aAddExpr_value (a : AMgr) (hi : AInv off a) (s : String) (t : Ast) (h : Nat)
+theorem aAddExpr_value (a : AMgr) (hi : AInv off a) (ht : Two off a) (s : String) (t : Ast) (h : Nat)
     (hf : a.handles.contains h = false) (hp : parse (tokenize s) = some t)
     (hM : Meaningful a.m.tbl t) (hh : ∀ u ∈ t.atNodes, ∃ j : Nat, a.handles[j]? = some u) :
     AValue off a h (aAddExpr s h) (ExprDoc t) :=
   wrapResult_value a hi h hf (addExpr s) (ExprDoc t) ((addExpr_keepsAll off s).at a.m)
-    (fun _ _ _ d => d.1) (addExpr_doc off a hi s t hp hM hh)
+    (fun _ _ _ d => d.1) (addExpr_doc off a hi ht s t hp hM hh)
 
 /-! ### `let` -/
 
@@ -454,7 +454,7 @@ theorem aLet_eval (a : AMgr) (hi : AInv off a) (d : ALetArg) (ju h : Nat) (u : I
   rfl
 
 /-- `let` with Boolean values (declared names): the cofactor, by name -/
-theorem aLet_bools_value (a : AMgr) (hi : AInv off a) (ju h : Nat)
+theorem aLet_bools_value (a : AMgr) (hi : AInv off a) (ht : Two off a) (ju h : Nat)
     (hf : a.handles.contains h = false) (u : Int) (hu : a.handles[ju]? = some u)
     (vals : List (String × Bool)) (hne : vals ≠ [])
     (hd : ∀ p ∈ vals, a.m.tbl.vars.contains p.1 = true) :
@@ -467,7 +467,7 @@ theorem aLet_bools_value (a : AMgr) (hi : AInv off a) (ju h : Nat)
     | cons _ _ => simp [boolKeys] at h
   have hdoc : ∃ r m', letOp (.bools (boolKeys vals)) u a.m = (.ok r, m') ∧
       CofDoc vals u a.m.tbl r m'.tbl := by
-    rw [letOp_bools _ hk]; exact cofactor_doc off a hi u ju hu vals hd
+    rw [letOp_bools _ hk]; exact cofactor_doc off a hi ht u ju hu vals hd
   obtain ⟨r, a', he, hres⟩ := wrapResult_value a hi h hf _ (CofDoc vals u)
     ((letOp_keepsAll off (.bools (boolKeys vals)) u).at a.m) (fun _ _ _ d => d.1) hdoc
   refine ⟨r, a', aLet_eval a hi _ ju h u hu ?_ _ rfl r a' he, hres⟩
@@ -476,7 +476,7 @@ theorem aLet_bools_value (a : AMgr) (hi : AInv off a) (ju h : Nat)
   | cons _ _ => rfl
 
 /-- `let` with names (targets declared): the renaming, by name -/
-theorem aLet_names_value (a : AMgr) (hi : AInv off a) (ju h : Nat)
+theorem aLet_names_value (a : AMgr) (hi : AInv off a) (ht : Two off a) (ju h : Nat)
     (hf : a.handles.contains h = false) (u : Int) (hu : a.handles[ju]? = some u)
     (dvars : List (String × String)) (hne : dvars ≠ [])
     (hd : ∀ p ∈ dvars, a.m.tbl.vars.contains p.2 = true) :
@@ -484,7 +484,7 @@ theorem aLet_names_value (a : AMgr) (hi : AInv off a) (ju h : Nat)
       AResult off a h (RenameDoc dvars u) r a' := by
   have hdoc : ∃ r m', letOp (.names dvars) u a.m = (.ok r, m') ∧
       RenameDoc dvars u a.m.tbl r m'.tbl := by
-    rw [letOp_names _ hne]; exact rename_doc off a hi u ju hu dvars hd
+    rw [letOp_names _ hne]; exact rename_doc off a hi ht u ju hu dvars hd
   obtain ⟨r, a', he, hres⟩ := wrapResult_value a hi h hf _ (RenameDoc dvars u)
     ((letOp_keepsAll off (.names dvars) u).at a.m) (fun _ _ _ d => d.1) hdoc
   refine ⟨r, a', aLet_eval a hi _ ju h u hu ?_ _ rfl r a' he, hres⟩
@@ -505,7 +505,7 @@ theorem nodesAny_eval (a : AMgr) (node : Nat → Int) : ∀ (d : List (String ×
     rfl
 
 /-- `let` with `Function` values (names declared, values alive): the composition, by name -/
-theorem aLet_funs_value (a : AMgr) (hi : AInv off a) (ju h : Nat)
+theorem aLet_funs_value (a : AMgr) (hi : AInv off a) (ht : Two off a) (ju h : Nat)
     (hf : a.handles.contains h = false) (u : Int) (hu : a.handles[ju]? = some u)
     (d : List (String × Nat)) (node : Nat → Int) (hne : d ≠ [])
     (hv : ∀ p ∈ d, a.handles[p.2]? = some (node p.2))
@@ -524,7 +524,7 @@ theorem aLet_funs_value (a : AMgr) (hi : AInv off a) (ju h : Nat)
     exact ⟨p.2, hv p hp⟩
   have hdoc : ∃ r m', letOp (.refs (d.map fun p => (p.1, node p.2))) u a.m = (.ok r, m') ∧
       ComposeDoc (d.map fun p => (p.1, node p.2)) u a.m.tbl r m'.tbl := by
-    rw [letOp_refs _ hvne]; exact compose_doc off a hi u ju hu _ hdecl hheld
+    rw [letOp_refs _ hvne]; exact compose_doc off a hi ht u ju hu _ hdecl hheld
   obtain ⟨r, a', he, hres⟩ := wrapResult_value a hi h hf _ (ComposeDoc _ u)
     ((letOp_keepsAll off (.refs (d.map fun p => (p.1, node p.2))) u).at a.m)
     (fun _ _ _ d => d.1) hdoc
